@@ -177,6 +177,211 @@ fn fq_pos<R: std::io::Read, P: seq_io::policy::BufPolicy>(r: &seq_io::fastq::Rea
 long_driver!(run_fasta, fasta, fa_pos, crate::reader::fa::err_json);
 long_driver!(run_fastq, fastq, fq_pos, crate::reader::fq::err_json);
 
+/// one giant record followed by a small one: FASTA ">big d" with m sequence lines of w bytes (line i starts with
+/// "ACGT"[i % 4] and goes on with 'N's), FASTQ "@big d" with a sequence and a quality line of w bytes
+fn render_giant(fmt: &str, m: usize, w: usize, crlf: bool) -> Vec<u8> {
+    let e: &[u8] = if crlf { b"\r\n" } else { b"\n" };
+    let mut x = Vec::with_capacity(m * (w + 2) * 2 + 64);
+    if fmt == "fasta" {
+        x.extend(b">big d");
+        x.extend(e);
+        for i in 1..=m {
+            if w > 0 {
+                x.push(b"ACGT"[i % 4]);
+                x.extend(std::iter::repeat(b'N').take(w - 1));
+            }
+            x.extend(e);
+        }
+        x.extend(b">next");
+        x.extend(e);
+        x.extend(b"AC");
+        x.extend(e);
+    } else {
+        x.extend(b"@big d");
+        x.extend(e);
+        x.extend(std::iter::repeat(b'A').take(w));
+        x.extend(e);
+        x.extend(b"+");
+        x.extend(e);
+        x.extend(std::iter::repeat(b'I').take(w));
+        x.extend(e);
+        x.extend(b"@next");
+        x.extend(e);
+        x.extend(b"AC");
+        x.extend(e);
+        x.extend(b"+");
+        x.extend(e);
+        x.extend(b"II");
+        x.extend(e);
+    }
+    x
+}
+
+fn giant_fasta(m: usize, w: usize, cap: usize, crlf: bool, via_set: bool) -> String {
+    use seq_io::fasta::Record as _;
+    let x = render_giant("fasta", m, w, crlf);
+    let sm = samples(m);
+    let r = std::panic::catch_unwind(std::panic::AssertUnwindSafe(|| {
+        let mut rdr = seq_io::fasta::Reader::with_capacity(std::io::Cursor::new(&x[..]), cap);
+        let mut set = seq_io::fasta::RecordSet::default();
+        let describe = |rec: &seq_io::fasta::RefRecord| -> String {
+            let mut lines = vec![];
+            let mut i = 0usize;
+            let mut total = 0usize;
+            for l in rec.seq_lines() {
+                i += 1;
+                total += l.len();
+                if sm.binary_search(&i).is_ok() {
+                    lines.push(format!("{{\"i\":{},\"len\":{},\"first\":{}}}", i, l.len(), l.first().map(|b| *b as i64).unwrap_or(-1)));
+                }
+            }
+            let back = rec.seq_lines().next_back().map(|l| l.len() as i64).unwrap_or(-1);
+            format!(
+                "{{\"k\":\"rec\",\"head\":{},\"nlines\":{},\"iterated\":{},\"len_hint\":{},\"sum\":{},\"owned\":{},\"full\":{},\"raw\":{},\"last_from_back\":{},\"lines\":[{}]}}",
+                jb(rec.head()), rec.num_seq_lines(), i, rec.seq_lines().len(), total, rec.owned_seq().len(), rec.full_seq().len(), rec.seq().len(), back, lines.join(",")
+            )
+        };
+        let (first, p1, second, p2);
+        if via_set {
+            let ok = matches!(rdr.read_record_set(&mut set), Some(Ok(())));
+            let recs: Vec<String> = if ok { set.into_iter().map(|r| describe(&r)).collect() } else { vec![] };
+            first = recs.get(0).cloned().unwrap_or_else(|| "{\"k\":\"none\"}".into());
+            second = if recs.len() > 1 {
+                recs[1].clone()
+            } else {
+                match rdr.next() {
+                    Some(Ok(r)) => describe(&r),
+                    Some(Err(e)) => crate::reader::fa::err_json(&e),
+                    None => "{\"k\":\"none\"}".into(),
+                }
+            };
+            p1 = None;
+            p2 = None;
+        } else {
+            first = match rdr.next() {
+                Some(Ok(r)) => describe(&r),
+                Some(Err(e)) => crate::reader::fa::err_json(&e),
+                None => "{\"k\":\"none\"}".into(),
+            };
+            p1 = fa_pos(&rdr);
+            second = match rdr.next() {
+                Some(Ok(r)) => describe(&r),
+                Some(Err(e)) => crate::reader::fa::err_json(&e),
+                None => "{\"k\":\"none\"}".into(),
+            };
+            p2 = fa_pos(&rdr);
+        }
+        let third_none = rdr.next().is_none();
+        let pj = |p: Option<(u64, u64)>| p.map(|(l, b)| format!("[{},{}]", l, b)).unwrap_or_else(|| "[]".into());
+        format!("\"first\":{},\"pos1\":{},\"second\":{},\"pos2\":{},\"then_none\":{}", first, pj(p1), second, pj(p2), third_none)
+    }));
+    let body = match r {
+        Ok(s) => format!("\"panic\":false,{}", s),
+        Err(_) => "\"panic\":true".to_string(),
+    };
+    format!("{{\"ev\":\"giant\",\"fmt\":\"fasta\",\"m\":{},\"w\":{},\"cap\":{},\"crlf\":{},\"via_set\":{},{}}}", m, w, cap, crlf, via_set, body)
+}
+
+fn giant_fastq(w: usize, cap: usize, crlf: bool, via_set: bool) -> String {
+    use seq_io::fastq::Record as _;
+    let x = render_giant("fastq", 1, w, crlf);
+    let r = std::panic::catch_unwind(std::panic::AssertUnwindSafe(|| {
+        let mut rdr = seq_io::fastq::Reader::with_capacity(std::io::Cursor::new(&x[..]), cap);
+        let mut set = seq_io::fastq::RecordSet::default();
+        let describe = |rec: &seq_io::fastq::RefRecord| -> String {
+            let o = rec.to_owned_record();
+            format!(
+                "{{\"k\":\"rec\",\"head\":{},\"seqlen\":{},\"quallen\":{},\"oseqlen\":{},\"oquallen\":{},\"seq_first\":{},\"seq_last\":{},\"qual_first\":{},\"qual_last\":{}}}",
+                jb(rec.head()), rec.seq().len(), rec.qual().len(), o.seq.len(), o.qual.len(),
+                rec.seq().first().map(|b| *b as i64).unwrap_or(-1), rec.seq().last().map(|b| *b as i64).unwrap_or(-1),
+                rec.qual().first().map(|b| *b as i64).unwrap_or(-1), rec.qual().last().map(|b| *b as i64).unwrap_or(-1)
+            )
+        };
+        let (first, p1, second, p2);
+        if via_set {
+            let ok = matches!(rdr.read_record_set(&mut set), Some(Ok(())));
+            let recs: Vec<String> = if ok { set.into_iter().map(|r| describe(&r)).collect() } else { vec![] };
+            first = recs.get(0).cloned().unwrap_or_else(|| "{\"k\":\"none\"}".into());
+            second = if recs.len() > 1 {
+                recs[1].clone()
+            } else {
+                match rdr.next() {
+                    Some(Ok(r)) => describe(&r),
+                    Some(Err(e)) => crate::reader::fq::err_json(&e),
+                    None => "{\"k\":\"none\"}".into(),
+                }
+            };
+            p1 = None;
+            p2 = None;
+        } else {
+            first = match rdr.next() {
+                Some(Ok(r)) => describe(&r),
+                Some(Err(e)) => crate::reader::fq::err_json(&e),
+                None => "{\"k\":\"none\"}".into(),
+            };
+            p1 = fq_pos(&rdr);
+            second = match rdr.next() {
+                Some(Ok(r)) => describe(&r),
+                Some(Err(e)) => crate::reader::fq::err_json(&e),
+                None => "{\"k\":\"none\"}".into(),
+            };
+            p2 = fq_pos(&rdr);
+        }
+        let third_none = rdr.next().is_none();
+        let pj = |p: Option<(u64, u64)>| p.map(|(l, b)| format!("[{},{}]", l, b)).unwrap_or_else(|| "[]".into());
+        format!("\"first\":{},\"pos1\":{},\"second\":{},\"pos2\":{},\"then_none\":{}", first, pj(p1), second, pj(p2), third_none)
+    }));
+    let body = match r {
+        Ok(s) => format!("\"panic\":false,{}", s),
+        Err(_) => "\"panic\":true".to_string(),
+    };
+    format!("{{\"ev\":\"giant\",\"fmt\":\"fastq\",\"m\":1,\"w\":{},\"cap\":{},\"crlf\":{},\"via_set\":{},{}}}", w, cap, crlf, via_set, body)
+}
+
+/// wrapped writing of a long sequence: the output is described by its header line, the run-length encoded lengths of
+/// its sequence lines and whether the lines joined are the sequence that was written
+fn long_write(len: usize, w: usize, how: &str) -> String {
+    let seq: Vec<u8> = (0..len).map(|i| b"ACGT"[i % 4]).collect();
+    let r = std::panic::catch_unwind(std::panic::AssertUnwindSafe(|| {
+        let mut o = vec![];
+        match how {
+            "write_wrap" => seq_io::fasta::write_wrap(&mut o, b"id", Some(b"d"), &seq, w).unwrap(),
+            "owned_wrap" => {
+                use seq_io::fasta::Record as _;
+                seq_io::fasta::OwnedRecord { head: b"id d".to_vec(), seq: seq.clone() }.write_wrap(&mut o, w).unwrap()
+            }
+            _ => {
+                seq_io::fasta::write_head(&mut o, b"id d").unwrap();
+                seq_io::fasta::write_wrap_seq_iter(&mut o, seq.chunks(1000), w).unwrap()
+            }
+        }
+        let ends_lf = o.last() == Some(&b'\n');
+        let mut lines: Vec<&[u8]> = o.split(|b| *b == b'\n').collect();
+        if ends_lf {
+            lines.pop();
+        }
+        let head = lines.first().map(|l| l.to_vec()).unwrap_or_default();
+        let body = if lines.is_empty() { &lines[..] } else { &lines[1..] };
+        let joined: Vec<u8> = body.concat();
+        let mut rle: Vec<(usize, usize)> = vec![];
+        for l in body {
+            match rle.last_mut() {
+                Some((n, c)) if *n == l.len() => *c += 1,
+                _ => rle.push((l.len(), 1)),
+            }
+        }
+        format!(
+            "\"headline\":{},\"ends_lf\":{},\"joined_is_seq\":{},\"nbytes\":{},\"rle\":[{}]",
+            jb(&head), ends_lf, joined == seq, o.len(), rle.iter().map(|(n, c)| format!("[{},{}]", n, c)).collect::<Vec<_>>().join(",")
+        )
+    }));
+    let body = match r {
+        Ok(s) => format!("\"panic\":false,{}", s),
+        Err(_) => "\"panic\":true".to_string(),
+    };
+    format!("{{\"ev\":\"longw\",\"fmt\":\"fasta\",\"cap\":0,\"len\":{},\"w\":{},\"how\":\"{}\",{}}}", len, w, how, body)
+}
+
 pub fn cmd_long(out: &str, _seed: u64, thorough: bool) {
     let mut f = std::io::BufWriter::new(std::fs::File::create(out).unwrap());
     let mut cases = 0usize;
@@ -196,6 +401,37 @@ pub fn cmd_long(out: &str, _seed: u64, thorough: bool) {
                         }
                     }
                 }
+            }
+        }
+    }
+    // one record set that holds more than 65 535 records (a buffer of 4 MiB)
+    for fmt in ["fasta", "fastq"] {
+        let line = if fmt == "fasta" { run_fasta(fmt, 70000, 4 << 20, false, false, "set") } else { run_fastq(fmt, 70000, 4 << 20, false, true, "set") };
+        writeln!(f, "{}", line).unwrap();
+        cases += 1;
+    }
+    // giant records: many lines, long lines, lengths around the default buffer size of 64 KiB
+    let shapes: Vec<(usize, usize)> = if thorough { vec![(70000, 3), (140000, 1), (3, 70000), (1, 65535), (1, 65536), (1, 65537), (1, 200000), (300, 300)] } else { vec![(70000, 3), (3, 70000), (1, 65536), (1, 200000), (300, 300)] };
+    for &(m, w) in &shapes {
+        for cap in [64usize, 65536] {
+            for crlf in [false, true] {
+                for via_set in [false, true] {
+                    writeln!(f, "{}", giant_fasta(m, w, cap, crlf, via_set)).unwrap();
+                    cases += 1;
+                    if m == 1 {
+                        writeln!(f, "{}", giant_fastq(w, cap, crlf, via_set)).unwrap();
+                        cases += 1;
+                    }
+                }
+            }
+        }
+    }
+    // wrapped writing of long sequences with widths around 2^8 and 2^16
+    for len in if thorough { vec![70000usize, 131072, 200001] } else { vec![70000usize, 131072] } {
+        for w in [255usize, 256, 257, 4096, 65535, 65536, 65537] {
+            for how in ["write_wrap", "owned_wrap", "iter"] {
+                writeln!(f, "{}", long_write(len, w, how)).unwrap();
+                cases += 1;
             }
         }
     }
